@@ -512,6 +512,48 @@ def r_capacity_uncapped(F, R, cat=None):
     R.floor("R-COVER(merge_regions)", "allocation amounts in pre-sizing entry points", n, 10)
 
 
+def r_reserve_single_item(F, R, cat=None):
+    """reserve_items / reserve_regions size storage for *all* announced items: a reserve whose
+    amount is taken from ONE element pulled out of the parameter (`items.clone().next()`,
+    `.last()`, `.nth(k)`), outside any loop over them, leaves the other items unaccounted for."""
+    cat = cat or Catalogue(F)
+    n = 0
+    for b in list(F.methods_of_trait("ReserveItems", "reserve_items")) + list(F.methods_of_trait("Region", "reserve_regions")):
+        if b.in_tests() or b.self_adt not in F.adts:
+            continue
+        n += 1
+        R.saw(b)
+        ctx, effs = cat.effects(b)
+        # a reserve sized from ONE element pulled out of the announced items (`items.clone().next()`,
+        # `.last()`, `.nth(k)`), outside any loop over them: the other items are not accounted for
+        from expr import in_loop as _in_loop, nobb as _nobb
+        for e in effs:
+            if e.cls != "reserve" or e.ctx is not ctx or not any(f is not None for (f, _r) in self_field_targets(e, ctx)):
+                continue
+            if _in_loop(b, e.bb):
+                continue
+            for os_ in e.argorigins[1:]:
+                raw_ = trees(e.ctx, os_)
+                # (an element pulled by a loop that accumulates over all of them -- `for x in items { n += x.len() }`
+                #  -- is every element: the poll sits in a cycle)
+                looped = {_nobb(nd) for nd in walk(raw_) if nd[0] == "call" and len(nd) == 5 and isinstance(nd[4], int) and _in_loop(b, nd[4])}
+                tr_ = _nobb(raw_)
+                single = [nd for nd in walk(tr_) if nd[0] == "call" and nd[1] in (("Iterator", "next"), ("Iterator", "last"), ("Iterator", "nth"),
+                                                                                ("Iterator", "min"), ("Iterator", "max"), ("Peekable", "peek"),
+                                                                                ("DoubleEndedIterator", "next_back"))
+                          and nd not in looped
+                          and any(x[0] == "place" and x[2] == ("arg", 2) for x in walk(nd))]
+                whole = [nd for nd in walk(tr_) if nd[0] == "place" and nd[2] == ("arg", 2) and
+                         not any(nd in list(walk(sg)) for sg in single)]
+                if single and not whole:
+                    R.check("R-RESERVE-ITEMS", b.label(), False, construct="storage is sized from all announced items",
+                            where=e.where(),
+                            detail="this reserve is sized from a single element of the items (%s) and is not repeated per item: "
+                                   "a batch whose other items come from elsewhere (another region, borrowed rows) is under-reserved" %
+                                   show(single[0])[:70])
+    R.info("R-RESERVE-ITEMS: %d reserve bodies inspected for single-element sizing" % n)
+
+
 def r_reserve_items_agree(F, R, cat=None):
     cat = cat or Catalogue(F)
     n = 0
